@@ -9,11 +9,11 @@ import (
 )
 
 const (
-	kMate1      = "k7/8/1K6/8/8/8/8/7R w - - 0 1"       // White mates in 1 (14+ moves: keep depth 1)
-	kMated      = "R6k/8/6K1/8/8/8/8/8 b - - 0 1"       // Black is checkmated: no legal move
-	kStale      = "7k/5Q2/6K1/8/8/8/8/8 b - - 0 1"      // Black is stalemated: no legal move
-	kFortress   = "k7/p7/P7/8/8/7p/7P/7K w - - 0 1"     // kings shuffle: 1-3 legal moves
-	kClock100   = "7k/8/8/8/8/8/8/K7 w - - 100 80"      // fifty-move limit already reached at set-up
+	kMate1      = "k7/8/1K6/8/8/8/8/7R w - - 0 1"                                                              // White mates in 1 (14+ moves: keep depth 1)
+	kMated      = "R6k/8/6K1/8/8/8/8/8 b - - 0 1"                                                              // Black is checkmated: no legal move
+	kStale      = "7k/5Q2/6K1/8/8/8/8/8 b - - 0 1"                                                             // Black is stalemated: no legal move
+	kFortress   = "k7/p7/P7/8/8/7p/7P/7K w - - 0 1"                                                            // kings shuffle: 1-3 legal moves
+	kClock100   = "7k/8/8/8/8/8/8/K7 w - - 100 80"                                                             // fifty-move limit already reached at set-up
 	kRepetition = "position fen k7/p7/P7/8/8/7p/7P/7K w - - 0 1 moves h1g1 a8b8 g1h1 b8a8 h1g1 a8b8 g1h1 b8a8" // third occurrence: a draw could be claimed
 )
 
